@@ -980,6 +980,9 @@ class CoseContext(AbstractContext):
 
         # Message for each target with one result per op/target
         target_result = []
+        # The targets are changed only when every one of them could be
+        # encrypted: no ciphertext without the BCB that describes it
+        target_ctext = []
         for sop in secops:
             tgt_blk = ctr.block_num(sop.tgt_blk_num)
             tgt_blk.ensure_block_type_specific_data()
@@ -1012,11 +1015,7 @@ class CoseContext(AbstractContext):
                     )
                     # detach payload
                     msg_dec = cbor2.loads(msg_enc)
-                    tgt_blk.setfieldval('btsd', msg_dec[2])
-                    # the decoded content no longer represents the block data
-                    # (the type code may have come from the payload binding)
-                    tgt_blk.setfieldval('type_code', tgt_blk.getfieldval('type_code'))
-                    tgt_blk.remove_payload()
+                    target_ctext.append((tgt_blk, msg_dec[2]))
                     msg_dec[2] = None
 
                 elif keyops.WrapOp in sop.priv_key.key_ops:
@@ -1050,11 +1049,7 @@ class CoseContext(AbstractContext):
                     LOGGER.debug('Used content key %s', msg_obj.key.k.hex())
                     # detach payload
                     msg_dec = cbor2.loads(msg_enc)
-                    tgt_blk.setfieldval('btsd', msg_dec[2])
-                    # the decoded content no longer represents the block data
-                    # (the type code may have come from the payload binding)
-                    tgt_blk.setfieldval('type_code', tgt_blk.getfieldval('type_code'))
-                    tgt_blk.remove_payload()
+                    target_ctext.append((tgt_blk, msg_dec[2]))
                     msg_dec[2] = None
 
                 else:
@@ -1096,6 +1091,13 @@ class CoseContext(AbstractContext):
                     value=msg_enc
                 )
             )
+
+        for (tgt_blk, ctext) in target_ctext:
+            tgt_blk.setfieldval('btsd', ctext)
+            # the decoded content no longer represents the block data
+            # (the type code may have come from the payload binding)
+            tgt_blk.setfieldval('type_code', tgt_blk.getfieldval('type_code'))
+            tgt_blk.remove_payload()
 
         # One result per target
         bcb_data.setfieldval('results', [
